@@ -10,12 +10,15 @@ pub mod c07;
 pub mod c08;
 pub mod c09;
 pub mod c09t;
+pub mod c10;
 pub mod c12;
 pub mod c13;
 pub mod taskx;
 pub mod c16;
 pub mod c17;
 pub mod c18;
+pub mod c19;
+pub mod c20;
 pub mod exec;
 pub mod explore;
 pub mod net;
